@@ -673,6 +673,10 @@ func handBuilt(sw *spec.Swagger) {
 
 // refsBackIntoRoot: some node outside the root document refers into the root document.
 func refsBackIntoRoot(c *expCase) bool {
+	if c.Spell == "varied" {
+		// the root's own references may then name the root's file or location: those too are read from the stored version
+		return true
+	}
 	for _, a := range c.Nodes {
 		if a.T == "ref" && a.Doc > 0 && a.To > 0 && c.Nodes[a.To-1].Doc == 0 {
 			return true
